@@ -60,19 +60,24 @@ def subset_records(ctx, rng, nid):
 
 def mutate(rec):
     from fractions import Fraction
+    import itertools as it
     o = rec['out']
     if 'raised' in o:
         return None
     d = o['alone']
     sh = [rec['in']['sh'][k - 1] for k in rec['in']['keep']]
-    # an interior entry of the subset run
-    idx = [1] * len(sh)
-    q = 0
-    for s_, i_ in zip(sh, idx):
-        q = q * s_ + i_
-    if Fraction(d[q]) == 0:
+    # the largest interior entry of the subset run, changed by 1 %
+    best, bestq = None, None
+    for idx in it.product(*[range(1, s_ - 1) for s_ in sh]):
+        q = 0
+        for s_, i_ in zip(sh, idx):
+            q = q * s_ + i_
+        v = abs(Fraction(d[q]))
+        if best is None or v > best:
+            best, bestq = v, q
+    if not best:
         return None
-    d[q] = common.rat(Fraction(d[q]) * Fraction(1000001, 1000000))
+    d[bestq] = common.rat(Fraction(d[bestq]) * Fraction(101, 100))
     return rec
 
 
